@@ -27,8 +27,17 @@ def run(res, replay=None):
         for n_, mdl in ((6, {'kind': 'dirac', 'psi': 0.375, 'c': 1.0, 'scale_time': False}), (7, {'kind': 'beta', 'alpha': 1.5, 'scale_time': False}),
                         (7, {'kind': 'dirac', 'psi': 0.625, 'c': 2.0, 'scale_time': True}))[: (2 if res.tier == 'quick' else 3)]:
             specs.append({'n_items': [['a', n_]], 'model': mdl, 'pop_sizes': {'a': {'0.0': rng.choice([0.5, 1.0, 2.0])}}, 'end_time': 3.0})
+    if not replay:
+        # designed: very large time scales (scaled Dirac, N = 2^20: time scale N^2 ~ 1e12) - the per-class rates of the block-counting
+        # representation are tiny parts of the summed rate the lineage-counting representation sees; the horizon is given explicitly
+        N_ = 2.0 ** 20
+        for n_, psi in ((4, 0.5), (5, 0.25)):
+            specs.append({'n_items': [['a', n_]], 'model': {'kind': 'dirac', 'psi': psi, 'c': 1.0, 'scale_time': True},
+                          'pop_sizes': {'a': {'0.0': N_}}, 'end_time': 200.0 * N_ ** 2, 'designed': 'large_time_scale'})
+    # structural tie of the class Transition of phasegen/state_space.py (both representations are built by it)
+    import translate_step; (res.proof is not None) and translate_step.run(res.proof, pid=res.pid, tie='transition')
     # structural tie of phasegen/coalescent_models.py (the block-counting rates feed every identity between the two representations)
     import translate_step; (res.proof is not None) and translate_step.run(res.proof, pid=res.pid, tie='coalescent_models')
     orc.run_oracle(res, 'identities', [{'spec': s, 'second_order_reads': ['cov', 'corr_first', 'touch'][i % 3]} for i, s in enumerate(specs)])
-    space.run_stream(res, 'C11', specs[: (5 if res.tier == 'quick' else 30)])
+    space.run_stream(res, 'C11', [s_ for s_ in specs if not s_.get('designed')][: (5 if res.tier == 'quick' else 30)])
     res.extra['input_distribution'] = {'n': sorted(gen.effective_n(s) for s in specs)}
